@@ -87,6 +87,73 @@ theorem rh_dport : bytesAt (rewriteHeadersP f p cfg sip gi) (p.udpOff + 2) 2
   generalize (if (gi != 0) = true then bytesAt f 6 6 else l2Dest f p) = dst at hd
   win
 
+theorem rh_dst : bytesAt (rewriteHeadersP f p cfg sip gi) 0 6 = (if gi != 0 then bytesAt f 6 6 else l2Dest f p) := by
+  obtain ⟨hv, hip, hudp, hdhcp, hroom⟩ := wf
+  have hd : (if (gi != 0) = true then bytesAt f 6 6 else l2Dest f p).length = 6 := by
+    split
+    · simp; omega
+    · exact l2Dest_length f p hroom
+  unfold rewriteHeadersP
+  simp only []
+  generalize (if (gi != 0) = true then bytesAt f 6 6 else l2Dest f p) = dst at hd
+  win
+
+theorem rh_src : bytesAt (rewriteHeadersP f p cfg sip gi) 6 6 = rdBytes cfg 0 6 := by
+  obtain ⟨hv, hip, hudp, hdhcp, hroom⟩ := wf
+  have hd : (if (gi != 0) = true then bytesAt f 6 6 else l2Dest f p).length = 6 := by
+    split
+    · simp; omega
+    · exact l2Dest_length f p hroom
+  unfold rewriteHeadersP
+  simp only []
+  generalize (if (gi != 0) = true then bytesAt f 6 6 else l2Dest f p) = dst at hd
+  win
+
+theorem rh_saddr : bytesAt (rewriteHeadersP f p cfg sip gi) (p.ipOff + 12) 4 = leBytes 4 sip.toNat := by
+  obtain ⟨hv, hip, hudp, hdhcp, hroom⟩ := wf
+  have hd : (if (gi != 0) = true then bytesAt f 6 6 else l2Dest f p).length = 6 := by
+    split
+    · simp; omega
+    · exact l2Dest_length f p hroom
+  unfold rewriteHeadersP
+  simp only []
+  generalize (if (gi != 0) = true then bytesAt f 6 6 else l2Dest f p) = dst at hd
+  win
+
+theorem rh_daddr : bytesAt (rewriteHeadersP f p cfg sip gi) (p.ipOff + 16) 4
+    = leBytes 4 (if gi != 0 then gi else IP_BCAST).toNat := by
+  obtain ⟨hv, hip, hudp, hdhcp, hroom⟩ := wf
+  have hd : (if (gi != 0) = true then bytesAt f 6 6 else l2Dest f p).length = 6 := by
+    split
+    · simp; omega
+    · exact l2Dest_length f p hroom
+  unfold rewriteHeadersP
+  simp only []
+  generalize (if (gi != 0) = true then bytesAt f 6 6 else l2Dest f p) = dst at hd
+  win
+
+theorem rh_ttl : bytesAt (rewriteHeadersP f p cfg sip gi) (p.ipOff + 8) 1 = [64] := by
+  obtain ⟨hv, hip, hudp, hdhcp, hroom⟩ := wf
+  have hd : (if (gi != 0) = true then bytesAt f 6 6 else l2Dest f p).length = 6 := by
+    split
+    · simp; omega
+    · exact l2Dest_length f p hroom
+  unfold rewriteHeadersP
+  simp only []
+  generalize (if (gi != 0) = true then bytesAt f 6 6 else l2Dest f p) = dst at hd
+  win
+
+theorem rh_udpck : bytesAt (rewriteHeadersP f p cfg sip gi) (p.udpOff + 6) 2 = leBytes 2 (0 : UInt16).toNat := by
+  obtain ⟨hv, hip, hudp, hdhcp, hroom⟩ := wf
+  have hd : (if (gi != 0) = true then bytesAt f 6 6 else l2Dest f p).length = 6 := by
+    split
+    · simp; omega
+    · exact l2Dest_length f p hroom
+  unfold rewriteHeadersP
+  simp only []
+  generalize (if (gi != 0) = true then bytesAt f 6 6 else l2Dest f p) = dst at hd
+  win
+
 end layer1
 
 /-! ### layer 2: `rewriteBootpP` -/
@@ -114,6 +181,26 @@ theorem rb_op : bytesAt (rewriteBootpP f p yi sip) p.dhcpOff 1 = [2] := by
   win
 
 theorem rb_yiaddr : bytesAt (rewriteBootpP f p yi sip) (p.dhcpOff + 16) 4 = leBytes 4 yi.toNat := by
+  unfold rewriteBootpP
+  simp only []
+  win
+
+theorem rb_hops : bytesAt (rewriteBootpP f p yi sip) (p.dhcpOff + 3) 1 = [0] := by
+  unfold rewriteBootpP
+  simp only []
+  win
+
+theorem rb_siaddr : bytesAt (rewriteBootpP f p yi sip) (p.dhcpOff + 20) 4 = leBytes 4 sip.toNat := by
+  unfold rewriteBootpP
+  simp only []
+  win
+
+theorem rb_sname : bytesAt (rewriteBootpP f p yi sip) (p.dhcpOff + 44) 64 = List.replicate 64 0 := by
+  unfold rewriteBootpP
+  simp only []
+  win
+
+theorem rb_file : bytesAt (rewriteBootpP f p yi sip) (p.dhcpOff + 108) 128 = List.replicate 128 0 := by
   unfold rewriteBootpP
   simp only []
   win
@@ -341,6 +428,88 @@ theorem reply_hdr_ok : headerSumOk (bytesAt (replyP f p t a pool cfg) p.ipOff 20
   rw [rh_ck0 hh]
   rfl
 
+/-- a window in front of the BOOTP message that neither `finish` nor the BOOTP rewrite touches reads as in frame1 -/
+theorem reply_as_frame1 {o k : Nat} (hk : o + k ≤ p.dhcpOff)
+    (hd : (o + k ≤ p.ipOff + 2 ∨ p.ipOff + 4 ≤ o) ∧ (o + k ≤ p.ipOff + 10 ∨ p.ipOff + 12 ≤ o) ∧
+          (o + k ≤ p.udpOff + 4 ∨ p.udpOff + 6 ≤ o)) :
+    bytesAt (replyP f p t a pool cfg) o k = bytesAt (frame1 f p pool cfg) o k := by
+  have l1 := frame1_length (f := f) (p := p) pool cfg
+  have hr := wf.room
+  rw [reply_as_frame2 wf hroom t a pool cfg (by omega) hd]
+  unfold frame2
+  exact rb_unchanged (by omega) _ _ (Or.inl hk)
+
+theorem reply_eth_dst : bytesAt (replyP f p t a pool cfg) 0 6 =
+    (if UInt32.ofNat (leNat (bytesAt f (p.dhcpOff + 24) 4)) != 0 then bytesAt f 6 6 else l2Dest f p) := by
+  have hh := wf
+  obtain ⟨hv, hip, hudp, hdhcp, hr⟩ := wf
+  rw [reply_as_frame1 hh hroom t a pool cfg (by omega) (by omega)]
+  exact rh_dst hh _ _ _
+
+theorem reply_eth_src : bytesAt (replyP f p t a pool cfg) 6 6 = rdBytes cfg 0 6 := by
+  have hh := wf
+  obtain ⟨hv, hip, hudp, hdhcp, hr⟩ := wf
+  rw [reply_as_frame1 hh hroom t a pool cfg (by omega) (by omega)]
+  exact rh_src hh _ _ _
+
+theorem reply_saddr : bytesAt (replyP f p t a pool cfg) (p.ipOff + 12) 4 = leBytes 4 (serverIpOf cfg pool).toNat := by
+  have hh := wf
+  obtain ⟨hv, hip, hudp, hdhcp, hr⟩ := wf
+  rw [reply_as_frame1 hh hroom t a pool cfg (by omega) (by omega)]
+  exact rh_saddr hh _ _ _
+
+theorem reply_daddr : bytesAt (replyP f p t a pool cfg) (p.ipOff + 16) 4 =
+    leBytes 4 (if UInt32.ofNat (leNat (bytesAt f (p.dhcpOff + 24) 4)) != 0
+      then UInt32.ofNat (leNat (bytesAt f (p.dhcpOff + 24) 4)) else IP_BCAST).toNat := by
+  have hh := wf
+  obtain ⟨hv, hip, hudp, hdhcp, hr⟩ := wf
+  rw [reply_as_frame1 hh hroom t a pool cfg (by omega) (by omega)]
+  exact rh_daddr hh _ _ _
+
+theorem reply_ttl : bytesAt (replyP f p t a pool cfg) (p.ipOff + 8) 1 = [64] := by
+  have hh := wf
+  obtain ⟨hv, hip, hudp, hdhcp, hr⟩ := wf
+  rw [reply_as_frame1 hh hroom t a pool cfg (by omega) (by omega)]
+  exact rh_ttl hh _ _ _
+
+theorem reply_udpck : bytesAt (replyP f p t a pool cfg) (p.udpOff + 6) 2 = leBytes 2 (0 : UInt16).toNat := by
+  have hh := wf
+  obtain ⟨hv, hip, hudp, hdhcp, hr⟩ := wf
+  rw [reply_as_frame1 hh hroom t a pool cfg (by omega) (by omega)]
+  exact rh_udpck hh _ _ _
+
+theorem reply_hops : bytesAt (replyP f p t a pool cfg) (p.dhcpOff + 3) 1 = [0] := by
+  have l1 := frame1_length (f := f) (p := p) pool cfg
+  have hh := wf
+  obtain ⟨hv, hip, hudp, hdhcp, hr⟩ := wf
+  rw [reply_as_frame2 hh hroom t a pool cfg (by omega) (by omega)]
+  unfold frame2
+  exact rb_hops (by omega) _ _
+
+theorem reply_siaddr : bytesAt (replyP f p t a pool cfg) (p.dhcpOff + 20) 4 = leBytes 4 (serverIpOf cfg pool).toNat := by
+  have l1 := frame1_length (f := f) (p := p) pool cfg
+  have hh := wf
+  obtain ⟨hv, hip, hudp, hdhcp, hr⟩ := wf
+  rw [reply_as_frame2 hh hroom t a pool cfg (by omega) (by omega)]
+  unfold frame2
+  exact rb_siaddr (by omega) _ _
+
+theorem reply_sname : bytesAt (replyP f p t a pool cfg) (p.dhcpOff + 44) 64 = List.replicate 64 0 := by
+  have l1 := frame1_length (f := f) (p := p) pool cfg
+  have hh := wf
+  obtain ⟨hv, hip, hudp, hdhcp, hr⟩ := wf
+  rw [reply_as_frame2 hh hroom t a pool cfg (by omega) (by omega)]
+  unfold frame2
+  exact rb_sname (by omega) _ _
+
+theorem reply_file : bytesAt (replyP f p t a pool cfg) (p.dhcpOff + 108) 128 = List.replicate 128 0 := by
+  have l1 := frame1_length (f := f) (p := p) pool cfg
+  have hh := wf
+  obtain ⟨hv, hip, hudp, hdhcp, hr⟩ := wf
+  rw [reply_as_frame2 hh hroom t a pool cfg (by omega) (by omega)]
+  unfold frame2
+  exact rb_file (by omega) _ _
+
 end reply
 
 /-! ### the monitor's predicate holds of the transmitted frame -/
@@ -401,10 +570,27 @@ theorem opt53_optsBytes (t : UInt8) (pool : Bytes) (sip : UInt32) : opt 53 (opts
   unfold optsBytes opt
   simp [tlvGet, opt4, List.length_append]
 
+/-- a 4-byte string loaded as a `__u32` and stored again is the same four bytes -/
+theorem leBytes4_leNat (bs : List UInt8) (hl : bs.length = 4) : leBytes 4 (UInt32.ofNat (leNat bs)).toNat = bs := by
+  match bs, hl with
+  | [a, b, c, d], _ =>
+    have ha := a.toNat_lt; have hb := b.toNat_lt; have hc := c.toNat_lt; have hd := d.toNat_lt
+    have hlt : leNat [a, b, c, d] < 4294967296 := by simp only [leNat]; omega
+    rw [UInt32.toNat_ofNat', Nat.mod_eq_of_lt hlt, leBytes4_eq]
+    simp only [leNat]
+    have e : ∀ (x : UInt8) (n : Nat), n = x.toNat → UInt8.ofNat n = x := by
+      intro x n hn; rw [hn]; exact UInt8.ofNat_toNat
+    rw [e a _ (by omega), e b _ (by omega), e c _ (by omega), e d _ (by omega)]
+
+theorem leBytes4_bcast : leBytes 4 IP_BCAST.toNat = [255, 255, 255, 255] := by
+  unfold IP_BCAST; decide
+
 /-- **The transmitted frame is a well-formed reply to its request**: every check of the monitor predicate
-    `replyDefect` passes on `replyP`. -/
+    `replyDefect` passes on `replyP`, with the server MAC and the server address taken from the cache bytes the
+    program answered from. -/
 theorem reply_wellformed {f : Frame} {p : Pkt} (wf : p.WF f) (hroom : p.dhcpOff + 240 + 64 ≤ f.length)
-    (t : UInt8) (a pool cfg : Bytes) : replyDefect f (replyP f p t a pool cfg) p = none := by
+    (t : UInt8) (a pool cfg : Bytes) :
+    replyDefect f (replyP f p t a pool cfg) p (rdBytes cfg 0 6) (leBytes 4 (serverIpOf cfg pool).toNat) = none := by
   have ho := replyOpts_length t pool cfg
   have hip := wf.ip; have hudp := wf.udp; have hdh := wf.dhcp; have hv := wf.vlan
   have e_len := reply_length wf hroom t a pool cfg
@@ -412,29 +598,51 @@ theorem reply_wellformed {f : Frame} {p : Pkt} (wf : p.WF f) (hroom : p.dhcpOff 
     rw [be16At_of (reply_iplen wf hroom t a pool cfg), ipLenOf_toNat ho.2]
   have e_udp : be16At (replyP f p t a pool cfg) (p.udpOff + 4) = 248 + (replyOpts t pool cfg).length := by
     rw [be16At_of (reply_udplen wf hroom t a pool cfg), udpLenOf_toNat ho.2]
+  have hgl : (bytesAt f (p.dhcpOff + 24) 4).length = 4 := by simp only [bytesAt_length]; omega
+  have hrel := giaddr_ne_zero_iff _ hgl
+  have e_dst : bytesAt (replyP f p t a pool cfg) 0 6 =
+      (if (bytesAt f (p.dhcpOff + 24) 4 != [0, 0, 0, 0]) = true then bytesAt f 6 6 else l2Dest f p) := by
+    rw [reply_eth_dst wf hroom t a pool cfg, hrel]
+  have e_src := reply_eth_src wf hroom t a pool cfg
   have e_l2 := reply_unchanged wf hroom t a pool cfg (o := 12) (k := p.ipOff - 12) (Or.inl (by omega))
   have e_v := reply_unchanged wf hroom t a pool cfg (o := p.ipOff) (k := 2) (Or.inl (by omega))
+  have e_ttl := reply_ttl wf hroom t a pool cfg
   have e_pr := reply_unchanged wf hroom t a pool cfg (o := p.ipOff + 9) (k := 1) (Or.inr (Or.inr (Or.inl ⟨rfl, rfl⟩)))
+  have e_sa := reply_saddr wf hroom t a pool cfg
+  have e_da : bytesAt (replyP f p t a pool cfg) (p.ipOff + 16) 4 =
+      (if (bytesAt f (p.dhcpOff + 24) 4 != [0, 0, 0, 0]) = true then bytesAt f (p.dhcpOff + 24) 4 else [255, 255, 255, 255]) := by
+    rw [reply_daddr wf hroom t a pool cfg, hrel]
+    split
+    · exact leBytes4_leNat _ hgl
+    · exact leBytes4_bcast
   have e_ck := reply_hdr_ok wf hroom t a pool cfg
   have e_sp : be16At (replyP f p t a pool cfg) p.udpOff = 67 := by
     rw [be16At_of (reply_sport wf hroom t a pool cfg)]; rfl
-  have hgl : (bytesAt f (p.dhcpOff + 24) 4).length = 4 := by simp only [bytesAt_length]; omega
   have e_dp : be16At (replyP f p t a pool cfg) (p.udpOff + 2)
       = (if (bytesAt f (p.dhcpOff + 24) 4 != [0, 0, 0, 0]) = true then 67 else 68) := by
-    rw [be16At_of (reply_dport wf hroom t a pool cfg), giaddr_ne_zero_iff _ hgl]
+    rw [be16At_of (reply_dport wf hroom t a pool cfg), hrel]
     split <;> rfl
+  have e_uc : bytesAt (replyP f p t a pool cfg) (p.udpOff + 6) 2 = [0, 0] := by
+    rw [reply_udpck wf hroom t a pool cfg]; rfl
   have e_op := reply_op wf hroom t a pool cfg
-  have e_xid := reply_unchanged wf hroom t a pool cfg (o := p.dhcpOff + 4) (k := 4)
+  have e_ht := reply_unchanged wf hroom t a pool cfg (o := p.dhcpOff + 1) (k := 2)
+    (Or.inr (Or.inr (Or.inr (Or.inl (by omega)))))
+  have e_hops := reply_hops wf hroom t a pool cfg
+  have e_xid := reply_unchanged wf hroom t a pool cfg (o := p.dhcpOff + 4) (k := 12)
     (Or.inr (Or.inr (Or.inr (Or.inr (Or.inl (by omega))))))
-  have e_ch := reply_unchanged wf hroom t a pool cfg (o := p.dhcpOff + 28) (k := 16)
+  have e_si := reply_siaddr wf hroom t a pool cfg
+  have e_ch := reply_unchanged wf hroom t a pool cfg (o := p.dhcpOff + 24) (k := 20)
     (Or.inr (Or.inr (Or.inr (Or.inr (Or.inr (Or.inl (by omega)))))))
+  have e_sn := reply_sname wf hroom t a pool cfg
+  have e_fl := reply_file wf hroom t a pool cfg
   have e_mg := reply_unchanged wf hroom t a pool cfg (o := p.dhcpOff + 236) (k := 4)
     (Or.inr (Or.inr (Or.inr (Or.inr (Or.inr (Or.inr (by omega)))))))
   have e_opts := reply_opts wf hroom t a pool cfg
   have e_tlv : tlvEnd (replyOpts t pool cfg).length (replyOpts t pool cfg) = some (replyOpts t pool cfg).length :=
     tlvEnd_optsBytes _ _ _
   unfold replyDefect
-  simp only [e_len, e_ip, e_udp, e_l2, e_v, e_pr, e_ck, e_sp, e_dp, e_op, e_xid, e_ch, e_mg, e_opts, e_tlv]
+  simp only [e_len, e_ip, e_udp, e_dst, e_src, e_l2, e_v, e_ttl, e_pr, e_sa, e_da, e_ck, e_sp, e_dp, e_uc, e_op, e_ht,
+    e_hops, e_xid, e_si, e_ch, e_sn, e_fl, e_mg, e_opts, e_tlv]
   have h1 : 14 + p.vlanOff + 268 + (replyOpts t pool cfg).length = 14 + p.vlanOff + (268 + (replyOpts t pool cfg).length) := by
     omega
   have h2 : 248 + (replyOpts t pool cfg).length + 20 = 268 + (replyOpts t pool cfg).length := by omega
